@@ -16,9 +16,23 @@ AttributeError), leaving the invariant intact.
 After flush + expire + reload (SQLite memory, same transaction) the invariant holds on the reloaded values and the
 reloaded relation is the in-memory relation (as a set of pairs) — judged for sequences whose in-memory invariant held.
 
-Scope: see coverage.scope (exhaustive operation sequences over fresh transient objects, no database for the in-memory
-part).  A sequence whose proper prefix already broke the invariant is not judged again (the precondition of the next
-mutator is false); it is counted in `skipped_prefix_already_broken`.
+Scope: see coverage.scope.  Two scopes share the operation catalogues and the clauses:
+  TRANSIENT   exhaustive operation sequences over fresh transient objects, no database for the in-memory part (lengths
+              1..3 quick / 1..4 thorough; flush+reload clause for lengths 1..2 / 1..3).
+  PERSISTENT  the same operations on objects that are persistent in a Session, over a database that already holds a
+              relation R0 (several R0 per family, so that a collection loads zero rows or some rows), the last
+              child / target / right object being new.  Setup dimension: R0 x load state of each side before the first
+              operation ("unloaded" = never loaded, key columns present; "expired" = Session.expire(); "loaded") x session
+              mode (Session(autoflush=False); autoflush session inside `with session.no_autoflush`; autoflush on) x new
+              object transient / pending.  This is where a mutation made from one side meets a collection that is not
+              loaded on the other side (the backref queues a "pending mutation") and the collection is loaded afterwards
+              — model: loaded collection = database rows + queued appends - queued removals, so both sides agree.
+              Nothing is read between the operations (reading would load what the setup keeps unloaded): both sides are
+              read after the last operation (invariant clause), then everything is added, flushed, expired and reloaded
+              (reload clause).  ALL sequences of length 1 and 2 per setup (quick: length 2 on a reduced setup list, see
+              `setups`).  Documented preconditions: see LOADS / setups and coverage assumptions.
+A sequence whose proper prefix already broke the invariant is not judged again (the precondition of the next mutator is
+false); it is counted in `skipped_prefix_already_broken`.
 """
 import json
 import re
@@ -276,8 +290,9 @@ R0S = {
 # A SCALAR side is only taken "unloaded" (foreign key present: the previous value is resolved from the identity map) or
 # "loaded": replacing a scalar reference whose previous value is neither loaded nor resolvable without SQL does, as
 # documented (relationship.active_history), not load that previous value, so the previous partner cannot be updated.
+# (the identity map does not hand out an EXPIRED parent without SQL either, hence no ("expired", "unloaded") for o2m.)
 LOADS = {
-    "o2m": [(a, b) for a in ("unloaded", "expired", "loaded") for b in ("unloaded", "loaded")],
+    "o2m": [(a, b) for a in ("unloaded", "expired", "loaded") for b in ("unloaded", "loaded") if (a, b) != ("expired", "unloaded")],
     "o2o": [("loaded", "loaded")],
     "m2m": [(a, b) for a in ("unloaded", "expired", "loaded") for b in ("unloaded", "expired", "loaded")],
 }
@@ -296,7 +311,7 @@ def setups(family, reduced=False):
                 for new in NEWS:
                     if new == "new-transient" and mode == "autoflush-on":
                         continue
-                    if reduced and (mode != "autoflush-off" or new != "new-pending" or load == ("loaded", "loaded")):
+                    if reduced and (mode != "autoflush-off" or new != "new-pending" or load == ("loaded", "loaded") or "expired" in load):
                         continue
                     out.append(dict(r0=[list(x) for x in r0], load=list(load), mode=mode, new=new))
     return out
@@ -470,7 +485,11 @@ def _worker(job):
     cat = catalogue(family)
     db = None
     setup = job.get("persistent")
-    if job.get("db") or setup:
+    if setup:
+        if _DB.get("engine") is None:
+            _DB["engine"] = H.new_engine()          # own database: it holds the rows of R0
+        db = _DB["engine"]
+    elif job.get("db"):
         if _ENGINE is None:
             _ENGINE = H.new_engine()
         db = _ENGINE
@@ -525,6 +544,21 @@ def scope_for(tier):
     return mem, db
 
 
+def persistent_jobs(tier):
+    """persistent scope: every setup x ALL sequences of length 1 and 2 (with the flush+reload clause); in the quick tier
+    length 2 runs over the reduced setups only (autoflush off, new object pending, at least one side "unloaded", none
+    "expired") and
+    without the flush+reload clause"""
+    out = []
+    for fam in FAMILIES:
+        n = len(catalogue(fam))
+        for st in setups(fam):
+            out += H.jobs(n, (1,), min_jobs=1, family=fam, persistent=st, reload=True)
+        for st in setups(fam, reduced=(tier == "quick")):
+            out += H.jobs(n, (2,), min_jobs=2, family=fam, persistent=st, reload=(tier != "quick"))
+    return out
+
+
 def run(run, tier, seed, args):
     t0 = time.time()
     mem, db = scope_for(tier)
@@ -533,6 +567,8 @@ def run(run, tier, seed, args):
         n = len(catalogue(fam))
         joblist += H.jobs(n, mem, min_jobs=40, family=fam)
         joblist += H.jobs(n, db, min_jobs=40, family=fam, db=True)
+    pjobs = persistent_jobs(tier)
+    joblist += pjobs
     if seed:
         import random
         random.Random(seed).shuffle(joblist)
@@ -543,18 +579,35 @@ def run(run, tier, seed, args):
     sizes = {f: len(catalogue(f)) for f in FAMILIES}
     run.coverage.update(
         evaluations=agg["evaluations"],
-        distinct_nontrivial=agg["nontrivial"],
+        distinct_nontrivial=agg["nontrivial"] + agg["persistent_nontrivial"],
         rule="every operation sequence of the scope is enumerated once (itertools.product, so all are distinct); a sequence is "
              "non-trivial when at least one of its operations changed the two-sided abstract state (the mutator ran and the "
              "backref handler propagated), counted by comparing the view before and after every operation; sequences that only "
-             "raise or re-assert the current state are trivial",
-        samples=pick_samples(agg.get("samples", [])),
+             "raise or re-assert the current state are trivial.  Persistent scope: every (setup, sequence) pair is enumerated once; "
+             "non-trivial when the final two-sided state differs from the state the database relation R0 stands for; "
+             "persistent_pending_mutation counts the pairs in which, after the last operation and before anything was read, a "
+             "mutation was queued on a collection that was not loaded (split by whether that collection then loads zero rows "
+             "or some rows)",
+        samples=pick_samples(agg.get("samples", [])) + pick_samples(agg.get("persistent_samples", []), per=1),
         exhaustive=True,
         scope=f"fresh transient objects, no session: one-to-many/many-to-one {NP} parents x {NC} children, {sizes['o2m']} operations; "
               f"one-to-one {NP} parents x {NO} targets, {sizes['o2o']} operations; many-to-many {NL} x {NR}, {sizes['m2m']} operations "
               f"(append, remove, insert, pop, collection replacement, slice/index assignment, del index/slice, clear, extend, scalar set, "
               f"set None, del, from either side); ALL sequences of length in {list(mem)} per family, invariant evaluated after every "
-              f"operation; plus flush + expire_all + reload on SQLite :memory: for ALL sequences of length in {list(db)}",
+              f"operation; plus flush + expire_all + reload on SQLite :memory: for ALL sequences of length in {list(db)}.  "
+              f"PERSISTENT scope (same operation catalogues): objects persistent in a Session over a database holding a relation R0 "
+              f"(o2m {R0S['o2m']}, o2o {R0S['o2o']}, m2m {R0S['m2m']} as (parent/left, child/right) pairs, so that collections load "
+              f"zero rows and non-zero rows), the last child/target/right object new; setup dimension = R0 x load state of each side "
+              f"before the first operation (o2m {LOADS['o2m']}, o2o {LOADS['o2o']}, m2m {LOADS['m2m']}) x session mode {list(MODES)} x "
+              f"new object {list(NEWS)} minus (new-transient, autoflush-on): {sum(len(setups(f)) for f in FAMILIES)} setups; ALL "
+              f"sequences of length 1 and 2 per setup" + (" (length 2 in the quick tier: the "
+              f"{sum(len(setups(f, True)) for f in FAMILIES)} setups with autoflush off, new object pending, at least one side 'unloaded', none 'expired'; "
+              "no flush+reload clause)" if tier == "quick" else "") + "; nothing is read between operations, both sides are read "
+              "after the last one (invariant), then everything is added, flushed, expired and reloaded (reload clause)",
+        persistent_evaluations=agg["persistent_evaluations"], persistent_nontrivial=agg["persistent_nontrivial"],
+        persistent_pending_mutation=agg["persistent_pending_mutation"],
+        persistent_pending_on_zero_row_collection=agg["persistent_pending_on_zero_row_collection"],
+        persistent_pending_on_nonempty_collection=agg["persistent_pending_on_nonempty_collection"],
         distinct_final_states=len(agg.get("finals", ())),
         skipped_prefix_already_broken=agg["skipped_prefix_already_broken"],
         sequences_with_an_allowed_exception=agg["raised_allowed"],
@@ -564,7 +617,11 @@ def run(run, tier, seed, args):
         enumeration_wall_s=round(time.time() - t0, 1),
     )
     run.assumptions += [
-        "objects start transient and unattached (no pending lazy loads); the flush/reload clause runs on SQLite :memory: only",
+        "transient scope: objects start transient and unattached; the flush/reload clause runs on SQLite :memory: only",
+        "persistent scope: a scalar reference is replaced only when its previous value is loaded or resolvable from the identity map "
+        "without SQL (documented: relationship.active_history — otherwise the previous value is not loaded and the previous partner "
+        "is not updated); an object that was never added to the Session does not meet a flush before it is read (the flush warns "
+        "that the operation will not proceed); the state between two operations is not observed (reading would load it)",
         "mutators may raise ValueError / IndexError / AttributeError exactly like the plain list / attribute operation; any other exception is a violation",
         "dynamic / write-only / viewonly relationships, association-object patterns and custom collection classes are outside the scope",
         "bounded: sequences longer than the stated length and more objects than stated are not covered",
@@ -594,6 +651,9 @@ def report(run, failures):
             continue
         seen.add(cls)
         name = f"{d['family']}-" + "--".join(d["ops"])
+        if "setup" in d:
+            st = d["setup"]
+            name += f"--{''.join(str(x) for pr in st['r0'] for x in pr) or 'empty'}-{'-'.join(st['load'])}-{st['mode']}-{st['new']}"
         run.violation(name, dict(function=FN + "/" + d["family"], input=d, expected="invariant holds after the last operation",
                                  actual=d["broken"], reason="bounded run-time contract check"))
 
@@ -604,8 +664,8 @@ def replay(data):
     family = d["family"]
     names = [c[0] for c in catalogue(family)]
     idxs = [names.index(n) for n in d["ops"]]
-    db = H.new_engine() if d.get("kind") == "reload" else None
-    r = run_ops(family, idxs, db)
+    db = H.new_engine() if d.get("kind") == "reload" or "setup" in d else None
+    r = run_persistent(family, d["setup"], idxs, db) if "setup" in d else run_ops(family, idxs, db)
     if r["status"] == "fail":
         print(f"REPLAY-FAILS {FN}/{family} ops={d['ops']} broken={r['broken']}")
         return 1
